@@ -2,12 +2,13 @@ SPECIFICATION MCSpec
 CONSTANTS
  Variant = "coded"
  StraddleOK = FALSE
- AllowStraddle = FALSE
  MCTypes = {"attester"}
  MCSlots = {1, 2}
- MaxCalls = 3
+ MaxCalls = 2
  MaxReorgs = 1
  Toks = {1, 2}
+ AttIdx = {2}
+ WithCancel = FALSE
  MCConf <- ConfA
-INVARIANTS RandaoBinding AttRootBinding SyncRootBinding AggOnlySelected SyncOnlySelected SubsExact NoResultUnresolved OnlyDefined AttesterComplete CacheSound NoLimbo
+INVARIANTS RandaoBinding AttRootBinding SyncRootBinding AggOnlySelected SyncOnlySelected SubsExact NoResultUnresolved OnlyDefined AttesterComplete CacheSound CacheFresh NoLimbo
 CHECK_DEADLOCK FALSE
